@@ -185,17 +185,13 @@ def stepSig (s : Sig) (c : Cfg) (op : Json) : R (Sig × Cfg × Json) := do
       | .error _ => return (s, c1, errJson)
       | .ok c2 => return (s, c2, .str "ok")
   | "assign" | "copy_with" =>
-    let kvs ← jlist (← jidx a 1)
-    let mut c := c
-    let c0 := c
-    for kv in kvs do
+    let kvs ← (← jlist (← jidx a 1)).mapM fun kv => do
       let b ← jlist kv
-      match c.setAttr s (← jstr (← jidx b 0)) (← parseVal (← jidx b 1)) with
-      | .ok c' => c := c'
-      | .error _ =>
-        -- assign mutates in place up to the failing name; a failing copy_with discards the copy
-        return (s, if name == "copy_with" then c0 else c, errJson)
-    return (s, c, .str "ok")
+      return (← jstr (← jidx b 0), ← parseVal (← jidx b 1))
+    -- `Cfg.assignAll` (Model/ArgStore.lean, the `assign` of the C16 alphabet): in place, up to the
+    -- first rejected name; a failing copy_with discards the copy it was editing
+    if c.assignOk s kvs then return (s, c.assignAll s kvs, .str "ok")
+    else return (s, if name == "copy_with" then c else c.assignAll s kvs, errJson)
   | _ =>
     let (c', r) ← step s c op
     return (s, c', r)
